@@ -54,6 +54,9 @@ MOD = {
                 "sdes_item_owned_eq", "unknown_setters", "fb_setters", "rpsi_setters", "nack_add_idempotent",
                 "nack_add_comm", "nack_add_mem", "fir_add_last_wins", "fir_add_comm", "fir_image_perm",
                 "packet_builder_forwards", "compound_singleton"],
+    "Calls": ["rb_run", "sr_run", "rr_run", "app_run", "bye_run", "unknown_run", "item_run", "chunk_run", "sdes_run",
+              "fb_run", "rpsi_run", "nack_run", "nack_run_same_set", "fir_run", "sli_run", "sr_same_summary",
+              "bye_same_summary", "sr_padding_anywhere"],
     "Fast": ["fast_nack_eq", "fast_fir_eq", "fast_sli_eq", "fast_compound_eq", "fast_compoundParse_eq", "fast_sdesParse_eq",
              "fast_packetParse_eq", "fast_kindParse_eq"],
     "EndToEnd": ["fb_nack_end_to_end", "fb_fir_end_to_end", "fb_sli_end_to_end", "fb_rpsi_end_to_end", "fb_pli_end_to_end",
@@ -120,7 +123,7 @@ OBLIGATIONS = {
             "unknown_roundtrip", "custom_parse_ok_iff", "custom_rules", "unknown_rules", "tryAs_unknown",
             "compound_refines", "custom_image_tile", "unknown_image_tile", "compound_parse_back",
             "custom_pad_transparent"],
-    "C20": MOD["Setters"],
+    "C20": MOD["Setters"] + MOD["Calls"],
 }
 
 TITLES = {}
